@@ -154,7 +154,9 @@ GroupOK(s) ==
   LET colItems == {i \in 1..Len(s.items) : IsCol(s.items[i].e)}
       needs    == (\E i \in 1..Len(s.items) : IsAggr(s.items[i].e)) \/ Len(s.group) > 0
   IN  needs => /\ \A i \in colItems : \E j \in 1..Len(s.group) : Matches(s.items[i], s.group[j])
-               /\ \A j \in 1..Len(s.group) : Cardinality({i \in colItems : Matches(s.items[i], s.group[j])}) <= 1
+               \* every grouping column is one - exactly one - column of the select list (rows are grouped by their select-list
+               \* values: a grouping column that is not selected could only be ignored, and is refused instead)
+               /\ \A j \in 1..Len(s.group) : Cardinality({i \in colItems : Matches(s.items[i], s.group[j])}) = 1
 
 \* `*` stands alone and takes no alias; without FROM a SELECT is its select list only
 SelectWF(s) ==
